@@ -53,6 +53,32 @@ var transports = []string{"HandleReader", "HandleReadWriter", "HTTP", "HTTP+gzip
 
 func runTransport(s *hsrv, tr string, in []byte) (ex execution) {
 	switch tr {
+	case "HandleReader+context-already-cancelled", "HandleReader+context-cancelled-by-first-handler":
+		// The caller's context ends while (or before) the message is served - a server-side request
+		// timeout, a client that went away. The test handlers ignore their context, so every request
+		// must still get its one response: what was asked for is independent of the deadline.
+		ctx, cancel := context.WithCancel(context.Background())
+		defer cancel()
+		if tr == "HandleReader+context-already-cancelled" {
+			cancel()
+		} else {
+			s.rec.mu.Lock()
+			s.rec.onFirst = cancel
+			s.rec.mu.Unlock()
+			defer func() {
+				s.rec.mu.Lock()
+				s.rec.onFirst = nil
+				s.rec.mu.Unlock()
+			}()
+		}
+		out, hdr, err := s.srv.HandleReader(ctx, bytes.NewReader(in))
+		if err != nil {
+			return execution{problem: "handler-error", detail: err.Error()}
+		}
+		if hdr == nil {
+			return execution{problem: "nil-header", detail: "HandleReader returned a nil http.Header"}
+		}
+		ex.out = out
 	case "HandleReader":
 		out, hdr, err := s.srv.HandleReader(context.Background(), bytes.NewReader(in))
 		if err != nil {
@@ -220,7 +246,11 @@ func checkInput(r *lib.Run, idx int, cat string, in []byte, pool int, sample boo
 	s := getSrv(pool)
 	healthy := true
 	// every input goes through HandleReader and one of the three wrapping transports
-	for _, tr := range []string{transports[0], transports[1+idx%3]} {
+	trs := []string{transports[0], transports[1+idx%3]}
+	if ex.batch || idx%8 == 0 {
+		trs = append(trs, []string{"HandleReader+context-already-cancelled", "HandleReader+context-cancelled-by-first-handler"}[idx/3%2])
+	}
+	for _, tr := range trs {
 		e, hung := execute(s, tr, in)
 		r.Eval(1)
 		r.Count("executions."+tr, 1)
